@@ -52,6 +52,10 @@ for k, extra in {'C01': ' System level: tee-rejoin (2-3 branches, one branch ski
                  'C05': ' System level: publisher + synchronized sink + stalled / killed ? or ?? listener compared (self-composition) with the same run without the listener: same frames at the same virtual instants.',
                  'C07': ' System level: balanced splitter -> 2-3 workers with symbolic speeds -> balanced joiner: every frame on exactly one branch, joiner log ordered and duplicate free.'}.items():
     CLAIMS[k] = (CLAIMS[k][0] + extra, CLAIMS[k][1] + '; system level: simulated network, delays constant per link, 1-2 free timing parameters per query')
+CLAIMS.update({
+ 'C15': ('K1: real hide_uri_users_and_pwds / hide_uri_pwds over a regex engine generated at run time from the live compiled patterns, scheme/user/password/host characters are z3 code points (each path = a class of characters), oracle by provenance of output characters; K2: real construction/init of all ten built-in classes with a credentialed URI at a symbolically chosen position/nesting, captured log lines, lineage facets and VideoReader.source must not contain the secret',
+         'trusted: SymRegex translation (validated against re on 48 000 concrete pairs every run); K2 string contents are concrete (shapes enumerated by choice variables); bounds: user 0-2, password 1-3, host 1-2 printable-ASCII characters, 9 left contexts, 6 tails, 9 container shapes'),
+})
 NA = {}
 props = [json.loads(l)['id'] for l in open(os.path.join(V, 'properties.jsonl'))]
 checks = []
